@@ -73,6 +73,7 @@ type hist struct {
 	sawL0L0          bool                 // an L0->L0 compaction ran (re-sorts L0 by smallest key: finding F8)
 	sawSkip          bool                 // an L0->Lbase compaction skipped a non-empty level (finding F11)
 	resurrectShape   bool                 // the read being judged shows a key/version the reference hides
+	sameVerShape     bool                 // the read being judged shows the expected key@version with other content
 }
 
 func entTerm(k []byte, ver uint64, meta, umeta byte, exp uint64, v []byte) string {
@@ -324,7 +325,8 @@ func (h *hist) sigFor(k []byte) string {
 	}
 	for _, n := range seen {
 		if n > 1 {
-			if h.sawL0L0 {
+			if h.sawL0L0 && h.sameVerShape {
+				// finding F8 shows as the OTHER copy of the same key@version being read
 				return "F8-same-key-version-precedence-flips-after-l0-sort"
 			}
 			return "read-mismatch/same-key-version-written-twice"
@@ -384,8 +386,9 @@ func (h *hist) get(t int, k []byte) {
 		h.failed = true
 	}
 	h.resurrectShape = want == nil && got != nil
+	h.sameVerShape = want != nil && got != nil && got.Ver == want.Ver
 	h.c.Oracle(ok, h.sigFor(k), "Get does not return the newest committed write at or below the read timestamp", J{"history": h.desc, "key": k})
-	h.resurrectShape = false
+	h.resurrectShape, h.sameVerShape = false, false
 }
 
 type itOpts struct {
@@ -551,7 +554,16 @@ func (h *hist) iterate(t int, o itOpts, seek []byte) {
 			h.resurrectShape = true
 		}
 	}
-	defer func() { h.resurrectShape = false }()
+	if len(want) == len(items) {
+		same := true
+		for i := range want {
+			if !bytes.Equal(want[i].Key, items[i].Key) || want[i].Ver != items[i].Ver {
+				same = false
+			}
+		}
+		h.sameVerShape = same // same keys and versions, only contents differ
+	}
+	defer func() { h.resurrectShape, h.sameVerShape = false, false }()
 	sig := "iter-mismatch"
 	for _, x := range append(append([]obsItem{}, items...), wantItems(want)...) {
 		if s := h.sigFor(x.Key); s != "read-mismatch" {
